@@ -61,6 +61,23 @@ namespace c12
         return -1;
     }
 
+    // ---- counters (kept out of the std::map of the reporter and flushed per world: the law loop must not allocate) ----
+    struct counters
+    {
+        long long evaluations = 0, nontrivial = 0, assertions = 0;
+        long long law[L_COUNT] = {};
+        void flush()
+        {
+            if (evaluations) vf::stat("evaluations", evaluations);
+            if (nontrivial) vf::stat("distinct_nontrivial", nontrivial);
+            if (assertions) vf::stat("assertions", assertions);
+            for (int l = 0; l < L_COUNT; ++l)
+                if (law[l]) vf::stat(std::string("law_") + law_name(l), law[l]);
+            *this = counters();
+        }
+    };
+    inline counters& cnt() { static counters c; return c; }
+
     // ---- the case that is executing right now (for crash attribution) -------------------------------------------
     struct current_case
     {
@@ -79,6 +96,7 @@ namespace c12
     {
         vf::crash_hook() = [](const char* signame) {
             current_case& c = cur();
+            cnt().flush();
             if (!c.active) return;
             vf::violation("C12/" + c.kind + "/" + law_name(c.law) + "/crash",
                           "kind=" + c.kind + " n=" + vf::str(c.n) + " law=" + law_name(c.law) + " a=" + vf::str(c.a) + " x=" + vf::str(c.x) +
@@ -183,7 +201,7 @@ namespace c12
         int law = 0, a = 0, x = 0;
         std::string* trace = nullptr;  // when set, every observation is written out (used for the evidence samples)
 
-        explicit runner(W& world) : w(world), n(world.size()) {}
+        explicit runner(W& world) : w(world), n(world.size()) { cur().kind = W::kind(); }
 
         std::string where() const
         {
@@ -211,40 +229,50 @@ namespace c12
         }
 
         template <class F>
-        void expect_elem(F&& f, int expected, const std::string& expr) const
+        void expect_elem(F&& f, int expected, const char* expr0, bool deref_of = false) const
         {
-            vf::stat("assertions");
+            ++cnt().assertions;
             int got = w.id_of(f);
+            if (!trace && got == expected) return;
+            std::string expr = deref_of ? "*(" + std::string(expr0) + ")" : std::string(expr0);
             if (trace) *trace += expr + " designates " + id_str(got) + "; ";
             if (got != expected) fail("wrong_element", expr + " must designate element " + vf::str(expected) + ", observed " + id_str(got));
         }
 
         // `it` must be at logical position `expected`; when that is a dereferenceable position, *it must be that element
-        void expect_pos(const It& it, int expected, const std::string& expr) const
+        void expect_pos(const It& it, int expected, const char* expr0) const
         {
-            vf::stat("assertions");
+            ++cnt().assertions;
             int got = pos(it);
-            if (trace) *trace += expr + " is at position " + pos_str(got) + "; ";
-            if (got != expected)
+            if (trace || got != expected)
             {
-                fail("wrong_position", expr + " must be at position " + vf::str(expected) + ", observed " + pos_str(got));
-                return;
+                std::string expr = expr0;
+                if (trace) *trace += expr + " is at position " + pos_str(got) + "; ";
+                if (got != expected)
+                {
+                    fail("wrong_position", expr + " must be at position " + vf::str(expected) + ", observed " + pos_str(got));
+                    return;
+                }
             }
             if (expected < n)
-                expect_elem([&]() -> decltype(auto) { return *it; }, expected, "*(" + expr + ")");
+                expect_elem([&]() -> decltype(auto) { return *it; }, expected, expr0, true);
         }
 
-        void expect_bool(bool got, bool expected, const std::string& expr) const
+        void expect_bool(bool got, bool expected, const char* expr0) const
         {
-            vf::stat("assertions");
+            ++cnt().assertions;
+            if (!trace && got == expected) return;
+            std::string expr = expr0;
             if (trace) *trace += expr + " is " + (got ? "true" : "false") + "; ";
             if (got != expected)
                 fail("wrong_value", expr + " must be " + (expected ? "true" : "false") + ", observed " + (got ? "true" : "false"));
         }
 
-        void expect_diff(long long got, long long expected, const std::string& expr) const
+        void expect_diff(long long got, long long expected, const char* expr0) const
         {
-            vf::stat("assertions");
+            ++cnt().assertions;
+            if (!trace && got == expected) return;
+            std::string expr = expr0;
             if (trace) *trace += expr + " == " + vf::str(got) + "; ";
             if (got != expected) fail("wrong_value", expr + " must be " + vf::str(expected) + ", observed " + vf::str(got));
         }
@@ -303,14 +331,14 @@ namespace c12
         {
             law = l; a = a_; x = x_;
             current_case& c = cur();
-            c.kind = W::kind(); c.n = n; c.law = l; c.a = a_; c.x = x_; c.active = true;
+            c.n = n; c.law = l; c.a = a_; c.x = x_; c.active = true;
             vf::take_asan();
             dispatch(std::integral_constant<bool, W::random_access>());
             if (vf::take_asan()) fail("asan", "AddressSanitizer reported a memory error while this law instance was evaluated");
             c.active = false;
-            vf::stat("evaluations");
-            vf::stat(std::string("law_") + law_name(l));
-            if (nontrivial(l, a_, x_)) vf::stat("distinct_nontrivial");
+            ++cnt().evaluations;
+            ++cnt().law[l];
+            if (nontrivial(l, a_, x_)) ++cnt().nontrivial;
         }
 
         // the same law instance once more, with every observation written out; not counted
@@ -401,9 +429,10 @@ namespace c12
             return s + "]";
         }
 
-        void expect_visit(const std::vector<int>& got, bool terminated, bool forward, const std::string& form) const
+        void expect_visit(const std::vector<int>& got, bool terminated, bool forward, const char* form0) const
         {
-            vf::stat("assertions");
+            ++cnt().assertions;
+            std::string form = form0;
             std::vector<int> want;
             for (int i = 0; i < n; ++i) want.push_back(forward ? i : n - 1 - i);
             if (trace) *trace += form + " visited elements " + seq_str(got) + "; ";
@@ -635,6 +664,7 @@ namespace c12
             W w(n);
             runner<W> r(w);
             r.enumerate_all();
+            cnt().flush();
             vf::stat("worlds");
             vf::smax("max_n", n);
             if (n == 4)
@@ -656,6 +686,7 @@ namespace c12
         runner<W> r(w);
         if (law < 0 || law >= L_COUNT || !r.in_domain(law, a, x)) return 1;
         r.run(law, a, x);
+        cnt().flush();
         return 0;
     }
 
